@@ -222,7 +222,9 @@ func parse(ls []string) [][]step {
 // store and the holder of the role never sees it
 func lookalike(rep *hx.Report, w *world.World, pi int, holder string, roleAddr string) {
 	at := strings.Index(roleAddr, "@")
-	for _, personal := range []string{roleAddr[:at-1] + "_" + roleAddr[at:], roleAddr[:2] + "%" + roleAddr[at:]} {
+	for _, personal := range []string{roleAddr[:at-1] + "_" + roleAddr[at:], roleAddr[:2] + "%" + roleAddr[at:],
+		// personal addresses that decorate the role's: a sub-address, a dot, another letter case, a longer local part
+		roleAddr[:at] + "+eu" + roleAddr[at:], roleAddr[:at] + "+" + roleAddr[at:], roleAddr[:at] + ".eu" + roleAddr[at:], roleAddr[:at] + "x" + roleAddr[at:]} {
 		tok := fmt.Sprintf("PRIVATE-%d-%s", pi, hx.H(personal)[:8])
 		rep.Case("lookalike|"+personal, true)
 		_, data := w.Deliver("s@example.org", []string{personal}, msg(tok))
